@@ -334,7 +334,7 @@ func c12() {
 	type swJob struct{ start, first, second, moment string }
 	var swJobs []swJob
 	for _, start := range []string{"G", "T3", "T7", "T9", "B@7+3"} {
-		for _, pair := range [][2]string{{"T16", "B@11+8"}, {"T16", "B@0+19"}, {"T16", "B@8+11"}, {"B@7+12", "B@4+15"}, {"T9", "T16"}} {
+		for _, pair := range [][2]string{{"T16", "B@11+8"}, {"T16", "B@0+19"}, {"T16", "B@8+11"}, {"B@7+12", "B@4+15"}, {"T9", "T16"}, {"T15", "T16"}, {"T8", "T9"}} {
 			for _, moment := range []string{"before-headers-answer", "before-blocks-answer", "after-sync"} {
 				swJobs = append(swJobs, swJob{start, pair[0], pair[1], moment})
 			}
